@@ -7,7 +7,7 @@ NT = set("stable-again-after-faults-at-two-steps,non-kafka-error-surfaced,rejoin
 
 
 class Eng(grp.GRPEngine):
-    MACROS = ["stable", "rebalance", "evict", "commitreject", "joinfault", "joinfault", "syncfault", "syncfault", "coordfault", "coordfault", "netfault", "netfault", "procfail"]
+    MACROS = ["stable", "rebalance", "evict", "commitreject", "joinfault", "joinfault", "syncfault", "syncfault", "coordfault", "coordfault", "netfault", "netfault", "procfail", "lookupfault", "lookupfault", "overlap"]
     MACRO_ONE_IN = 3
 
     def nontrivial(self):
